@@ -136,6 +136,8 @@ type Machine struct {
 	LocOfRun func(r *Run, addr ssa.Value) string
 	// Param gives the abstract value of a parameter or free variable.
 	Param func(v ssa.Value) AV
+	// ParamField gives the value of one field of a struct parameter.
+	ParamField func(p *ssa.Parameter, f int) (AV, bool)
 	// Call models a call's result(s); idx is -1 for a single result, else
 	// the tuple index being extracted.  Return avU for unmodelled calls.
 	Call func(r *Run, c *ssa.CallCommon, idx int) AV
@@ -379,6 +381,14 @@ func (r *Run) step(i ssa.Instruction, prev *ssa.BasicBlock) {
 		} else {
 			set(avU)
 		}
+	case *ssa.Field:
+		if pa, ok := x.X.(*ssa.Parameter); ok && nil != r.M.ParamField {
+			if a, ok := r.M.ParamField(pa, x.Field); ok {
+				set(a)
+				return
+			}
+		}
+		set(avU)
 	case *ssa.Convert:
 		set(r.Eval(x.X))
 	case *ssa.ChangeType:
